@@ -82,7 +82,9 @@ def simulate(chk, world, max_polls=40, loop_bound=14, sleep_polls=1):
     rp = {n: int(p[1:]) - 1 for n, p in run_sc[0].debug.items() if p.startswith('_') and p[1:].isdigit() and int(p[1:]) <= len(run_sc[0].params)}
     next_try = common.find_method(prog, 'RetryOptions', 'next_try')
     insert_retried = sched._find_method(prog, 'Features', 'insert_retried_scenario')
-    sc_finished = [b for (st, m), lst in prog.by_method.items() if st == 'Executor' and m == 'scenario_finished' for tr, b in lst][0]
+    # how an attempt tells the scheduler that it ended: through Executor::scenario_finished (a notification channel) - or, when
+    # there is no such method, as the value its future returns (id, feature, rule, failed, retried)
+    sc_finished = ([b for (st, m), lst in prog.by_method.items() if st == 'Executor' and m == 'scenario_finished' for tr, b in lst] or [None])[0]
     EX = prog.tables.struct_fields('runner::basic::Executor<W>')
     by_pid = {}
     failv = {}
@@ -161,8 +163,11 @@ def simulate(chk, world, max_polls=40, loop_bound=14, sleep_polls=1):
                     poll_to_completion(ex2, M, co, 3)
             ex2.env['running'].remove(s.name)
             M.log(ex2, 'finish', sc=s.name, attempt=attempt, failed=failed, retried=retried, f=fpid, r=rpid, clock=M.clock(ex2))
-            ex2.call_body(sc_finished, [executor, sid, feat, rule, z3.BoolVal(failed), z3.BoolVal(retried)])
             ex2.write_path(cell, path, v.set(stage=2))
+            if sc_finished is None:
+                return M.poll_ready(dty, Adt('(ScenarioId, Source<Feature>, Option<Source<Rule>>, bool, bool)', {
+                    (None, 0): sid, (None, 1): feat, (None, 2): rule, (None, 3): z3.BoolVal(failed), (None, 4): z3.BoolVal(retried)}))
+            ex2.call_body(sc_finished, [executor, sid, feat, rule, z3.BoolVal(failed), z3.BoolVal(retried)])
             return M.poll_ready(dty, UNIT)
         return Obj('pyfut', poll=poll, stage=0, left=dur, what=('scenario', s.name, attempt))
     M.body_hooks[run_sc[0].name] = scen_future
